@@ -29,7 +29,11 @@ ASSUME = [
     "every scheduling point after the state became transport; a try-lock / timed acquire / locked() probe of the "
     "flush lock is a scheduling point with a recorded outcome ('busy' is unknown to the model: tie broken, "
     "line-level escalation inside YowNoiseLayer's flush / receive / state-change code); at quiescence the "
-    "segment queue must be empty",
+    "segment queue must be empty; the worker's dequeue of the server hello is followed by a scheduling point and "
+    "the histories 'login cut off after the dequeue, then reconnect' are enumerated over the worker's positions; "
+    "every login must establish the session or report <failure> (neither = hang); the open reconnect finding is "
+    "matched by its mechanism (earlier worker alive / earlier server segments queued at an auth event), not by "
+    "'a disconnect hit a live worker' alone",
     "presented payload: the model's auth events carry the configuration in force when they are emitted "
     "(account, passive flag, attribute tuple as opaque codes); the responder decrypts the ClientPayload of "
     "every connection; per connection it is compared with the model's prediction for that login (final "
@@ -185,6 +189,29 @@ class Checker(object):
         it cut off had not terminated (still waiting for / processing the server hello)"""
         return any(obs.get("cut_live", []))
 
+    @staticmethod
+    def finding_mechanism(obs):
+        """The open finding's mechanism is visible in the history: when an auth event was handled, a handshake
+        worker of an EARLIER attempt was still alive (blocked on the shared queue, not yet started, or running on
+        the shared protocol object) or server segments of an earlier connection were still queued.  A disconnect
+        that cut off a live worker which then ENDED before the next login, leaving no server segment behind, is
+        not the finding: the next login starts from a clean slate (the domain of C04_reconnect_fresh_partial)
+        and must work."""
+        return any(a["workers_alive"] or any(x < 996 for x in a["queued"]) for a in obs.get("auth_state", []))
+
+    @staticmethod
+    def cut_logins(scn, obs):
+        """indices of the logins that a disconnect event cut off while their handshake worker was alive"""
+        out, auths, j = set(), 0, 0
+        for it in scn["script"]:
+            if it[0] == "auth":
+                auths += 1
+            elif it[0] == "disc":
+                if j < len(obs.get("cut_live", [])) and obs["cut_live"][j] and auths:
+                    out.add(auths - 1)
+                j += 1
+        return out
+
     def run_case(self, scn, chooser, chunk_seed, kind, name=None, record=True):
         ctx = self.ctx
         self.n += 1
@@ -213,6 +240,7 @@ class Checker(object):
         ctx = self.ctx
         failed = []
         finding_hist = self.history_is_finding(obs)
+        finding_key = finding_hist and self.finding_mechanism(obs)
         if len(login_plan(scn)) > 1:
             case = dict(case)
             case["logins"] = self.presented_per_login(scn, obs)
@@ -230,8 +258,8 @@ class Checker(object):
                 if self.nocase > 3:
                     return          # enough tie-broken records; keep searching for a failing input
             ctx.violation(name, c, found_input=found_input,
-                          key=KEY_RECONNECT if (finding_hist and name.startswith("oracle:")) else None)
-            if finding_hist and name.startswith("oracle:"):
+                          key=KEY_RECONNECT if (finding_key and name.startswith("oracle:")) else None)
+            if finding_key and name.startswith("oracle:"):
                 self.finding_seen += 1
 
         if obs["unmodelled"]:
@@ -306,6 +334,77 @@ class Checker(object):
             viol(name, extra)
         return failed
 
+    @staticmethod
+    def login_outcome(scn, obs, plan):
+        """every login either establishes the session or reports <failure> upward by the time nothing can move
+        any more; here for the LAST login when no disconnect follows it: neither = hang"""
+        idx = [i for i, it in enumerate(scn["script"]) if it[0] == "auth"]
+        if not idx or any(it[0] == "disc" for it in scn["script"][idx[-1]:]):
+            return None
+        k = len(idx) - 1
+        lg = plan[k]
+        if not lg["answered"]:
+            return None
+        kinds = [g[0] for g in obs["top"]]
+        if lg["ok"]:
+            est = obs["state"] == 2 and k < len(obs["resp"]) and obs["resp"][k]["established"]
+            if not est and "failure" not in kinds[-2:]:
+                return ("oracle:login_established_or_failed",
+                        {"login": k + 1, "of_logins": len(plan), "protocol_state": obs["state"],
+                         "server_has_session": bool(k < len(obs["resp"]) and obs["resp"][k]["established"]),
+                         "top": [g[:2] for g in obs["top"]][-6:], "threads": obs["status"], "queue_left": obs["inq_left"],
+                         "expected": "the server answered this login authentically: session established (state "
+                                     "transport, server has the transport keys) - observed neither that nor a "
+                                     "<failure> = the login hangs",
+                         "note": "protocol_state 0 init 1 handshake 2 transport 3 error"})
+        return None
+
+    def oracle_after_clean_cut(self, scn, obs, plan, cut):
+        """A disconnect cut off a login whose worker was alive, that worker ENDED before the next auth event and no
+        server segment stayed queued: the cut-off login owes nothing (its frames may be delivered partly, its
+        worker may have died of the reset), every other login owes everything."""
+        out = []
+        st = self.real_status(obs)
+        bad = {t: v for t, v in st.items() if v != "done" and not (v == "crashed" and (t - 1) in cut)}
+        if bad:
+            out.append(("oracle:no_deadlock", {"observed": obs["status"], "exceptions": obs["exc"], "cut_off_logins": sorted(cut),
+                                               "expected": "every thread ends (only the worker of a cut-off login may die of the reset)"}))
+        toks = [("up", g[1]) if g[0] == "up" else (g[0],) for g in obs["top"]]
+
+        def match(i, k):
+            if k == len(plan):
+                return i == len(toks)
+            lg = plan[k]
+            if not lg["answered"]:
+                return match(i, k + 1)
+            ups = [("up", "s%d" % d) for d in lg["data"]]
+            full = ups if lg["ok"] else [("event",), ("failure",)]
+            cands = [full] if k not in cut else [ups[:n] for n in range(len(ups) + 1)] + [[("event",), ("failure",)]]
+            return any(toks[i:i + len(c)] == c and match(i + len(c), k + 1) for c in cands)
+        if not match(0, 0):
+            out.append(("oracle:frames_in_order_once",
+                        {"observed": [t[-1] for t in toks], "cut_off_logins": [k + 1 for k in sorted(cut)],
+                         "expected": "per login in order: all its frames once, or event+<failure>; a cut-off login any prefix"}))
+        hang = self.login_outcome(scn, obs, plan)
+        if hang:
+            out.append(hang)
+        if all(v in ("done", "crashed") for v in st.values()) and obs["inq_left"] and (len(plan) - 1) not in cut:
+            out.append(("oracle:queue_empty_at_quiescence",
+                        {"observed_queue": obs["inq_left"], "note": "996 = an object that is not a segment",
+                         "expected": "_incoming_segments_queue empty when all threads are idle"}))
+        answered = [k for k, lg in enumerate(plan) if lg["answered"]]
+        if answered and answered[-1] not in cut and plan[answered[-1]]["ok"] and obs["disk_rs"] != plan[-1]["stored_after"]:
+            out.append(("oracle:rs_persisted", {"observed_profile_key": obs["disk_rs"], "expected": plan[-1]["stored_after"]}))
+        for i, r in enumerate(obs["resp"]):
+            p = r["presented"]
+            if p is None or i >= len(plan):
+                continue
+            diff = {k: (p.get(k), v) for k, v in plan[i]["configured"].items() if p.get(k) != v}
+            if diff:
+                out.append(("oracle:presented", {"login": i + 1, "observed_vs_configured": diff}))
+                break
+        return out
+
     def classify_loss(self, scn, obs, chunk_seed):
         """frames missing at quiescence: same scenario and schedule plus ONE more server frame long after
         (when every worker has ended) - does it bring the stranded frames up (late) or not (lost)?"""
@@ -349,6 +448,12 @@ class Checker(object):
         answered = [lg for lg in plan if lg["answered"]]
         all_ok = all(lg["ok"] for lg in answered)
         st = self.real_status(obs)
+        cut = self.cut_logins(scn, obs)
+        if cut and not self.finding_mechanism(obs):
+            return self.oracle_after_clean_cut(scn, obs, plan, cut)
+        hang = self.login_outcome(scn, obs, plan)
+        if hang:
+            out.append(hang)
         if any(v != "done" for v in st.values()):
             out.append(("oracle:no_deadlock", {"observed": obs["status"], "exceptions": obs["exc"],
                                                "expected": "every thread finishes (nobody waiting, nobody raised)"}))
@@ -600,6 +705,61 @@ def preempt_search(chk, scn, kind, budget, bound=2):
 COMPLETION_SHAPES = ((0, 1), (1, 0), (1, 1), (2, 0), (2, 1), (3, 0))
 
 
+def cut_scn(variant, ndata=1, line=False):
+    """login; the server hello is put AND dequeued by the worker; disconnect while the worker sits between the
+    dequeue and finish / the state change (or anywhere later); reconnect + login (+ frames) on the same stack"""
+    script = [("auth",), ("hello",), ("disc",), ("auth",), ("hello",)] + [("data", 10 + i) for i in range(ndata)]
+    scn = {"variant": variant, "edge": None, "passive": False, "corrupt": None, "script": script, "chunk": "whole",
+           "hold": [False] * len(script), "cut_after_dequeue": True}
+    if line:
+        scn["line_level"] = True
+    return scn
+
+
+def explore_until(chk, scn, limit, kind, stop_item, chunk_seed=7):
+    """every schedule of the part of the scenario BEFORE the network thread handles script item `stop_item`
+    (all positions of the worker at which the earlier events are delivered); from there on the default schedule.
+    Goes on when the trace replay breaks; stops at the first concrete failing schedule.  -> (#runs, complete, stopped)"""
+    ctx = chk.ctx
+    prefix, count = [], 0
+    while True:
+        obs, bad = chk.run_case(scn, fixed_chooser(prefix), chunk_seed, kind)
+        count += 1
+        if any(v["found_input"] for v in ctx.violations):
+            return count, False, True
+        trace, ready, dec = obs["trace"], obs["ready_sets"], obs["decisions"]
+        cutoff, ev = len(trace) - 1, 0
+        for i, t in enumerate(trace):
+            if t == 0 and dec[i].get(0, dec[i].get("0")) == "event":
+                if ev == stop_item:
+                    cutoff = i
+                    break
+                ev += 1
+        i, nxt = min(cutoff, len(trace) - 1), None
+        while i >= 0:
+            alts = [t for t in ready[i] if t > trace[i]]
+            if alts:
+                nxt = trace[:i] + [alts[0]]
+                break
+            i -= 1
+        if nxt is None:
+            return count, True, False
+        if count >= limit:
+            return count, False, False
+        prefix = nxt
+
+
+def cut_search(chk, quick, line=False):
+    res = {}
+    for v in ("XX", "IK", "FB"):
+        n, complete, stopped = explore_until(chk, cut_scn(v, 1, line), (100 if quick else 4000), "cut-after-dequeue" +
+                                             ("-line" if line else ""), 3)
+        res[v] = {"schedules": n, "complete": complete, "stopped_at_violation": stopped}
+        if stopped:
+            break
+    return res
+
+
 def escalate(chk, quick, why):
     """Line-level escalation, started when a run showed an operation the model has no step for (a try-lock
     found busy, a locked() probe) or the trace replay broke, and no concrete failing schedule is known yet:
@@ -608,6 +768,12 @@ def escalate(chk, quick, why):
     stranded one and hide the loss) - with a scheduling point at every line of YowNoiseLayer's flush / receive /
     state-change code, <= 1 then <= 2 preemptions.  Stops at the first concrete failing schedule."""
     res = {"because": why, "shapes": {}}
+    # (a) a login cut off after its worker dequeued the server hello, then a reconnect: every position of the worker
+    #     (line-level in the worker's run / _handle_stream_event / on_disconnected, before every state transition)
+    res["cut_after_dequeue"] = cut_search(chk, quick, line=True)
+    if any(x["found_input"] for x in chk.ctx.violations):
+        return res
+    # (b) frames around handshake completion
     for v in ("XX", "IK", "FB"):
         for e, l in COMPLETION_SHAPES:
             scn = window_scn(v, e, l)
@@ -790,7 +956,7 @@ def run(ctx):
     #     pass (keeps the machinery and its correspondence alive), the full escalation when the model does not
     #     know an observed operation or the replay broke and no concrete failing schedule is known yet.
     lines = {}
-    for v, e, l in ((("XX", 1, 0), ("IK", 0, 1)) if quick else (("XX", 1, 0), ("IK", 0, 1), ("FB", 1, 1), ("IK", 1, 1))):
+    for v, e, l in ((("XX", 0, 1), ("IK", 0, 1)) if quick else (("XX", 0, 1), ("IK", 0, 1), ("FB", 1, 1), ("IK", 1, 1))):
         if any(x["found_input"] for x in ctx.violations):
             break
         scn = window_scn(v, e, l)
@@ -856,6 +1022,13 @@ def run(ctx):
                                        for l in chk.presented_per_login(scn, obs)],
                             "delivered": [g[1] for g in obs["top"] if g[0] == "up"]})
     ctx.coverage["history_runs"] = {"runs": nhist, "by_logins": hist_logins}
+
+    # 3c. a login cut off AFTER its worker dequeued the server hello (worker between the dequeue and finish / the
+    #     state change, or later), then reconnect + login + a frame on the same stack: every position of the worker
+    #     at which the disconnect / the next auth is handled.  Where the cut-off worker has ended before the next auth
+    #     and no server segment stayed queued the next login must work (not the known finding).
+    if not any(v["found_input"] for v in ctx.violations):
+        ctx.coverage["cut_after_dequeue"] = cut_search(chk, quick)
 
     # 4. reconnect after an attempt cut off before the server hello: the open known finding.
     #    Every schedule must still be a run of the model; the property oracle fails -> KNOWN-FINDING.
